@@ -191,6 +191,11 @@ def slice(ctx: fw.Ctx) -> fw.Outcome:
     reqs, meta = [], []
     for _ in range(ctx.n(60, 6000)):
         src = gen.rand_src(rng, prof)
+        if src.tracks and rng.random() < 0.5:  # several difficulties of one instrument, in any file order
+            inst = src.tracks[0].inst
+            diffs = rng.sample(range(4), min(4, len(src.tracks)))
+            for tr, d in zip(src.tracks, diffs):
+                tr.inst, tr.diff = inst, d
         R = gen.render(src, rng, prof)
         c, e, _ = impl.parse(R.text)
         if c is None:
